@@ -421,6 +421,22 @@ def run_plastic(case):
     alpha_new, alpha_old = svn[0], sv[0]
     grew = int((alpha_new > alpha_old + 1e-12).sum())
     c.outcomes.add(f"{case['regime']}:plastic-points={grew}/{n}")
+    # evaluation histories on the material (and on a second instance with the same constants): the tangent is evaluated at one
+    # set of states and then at another one of the same shape (yielding -> elastic, elastic -> yielding, mixed); the second
+    # tangent must be the derivative of the second stress (nothing may be remembered per shape / per constants)
+    if case["regime"] == "plastic-hardened":
+        um_h = fem.LinearElasticPlasticIsotropicHardening(E=2.0, nu=0.3, sy=0.05, K=0.4)
+        I4 = np.eye(3)[:, :, None, None]
+        sets = {"large": F, "small": I4 + 0.02 * (F - I4), "mixed": np.where((np.arange(n) % 2 == 0)[None, None, :, None], F, I4 + 0.02 * (F - I4))}
+        svh = np.zeros((nsv, n, 1))
+        fds = {k_: fd_dirs(lambda FF: np.asarray(um_h.gradient([FF, svh])[0], float), np.ascontiguousarray(v_)) for k_, v_ in sets.items()}
+        for s1, s2 in itertools.permutations(sets, 2):
+            for second in ("same-object", "new-instance"):
+                um_h.hessian([np.ascontiguousarray(sets[s1]), svh])
+                um2 = um_h if second == "same-object" else fem.LinearElasticPlasticIsotropicHardening(E=2.0, nu=0.3, sy=0.05, K=0.4)
+                A2 = np.asarray(um2.hessian([np.ascontiguousarray(sets[s2]), svh])[0], float)
+                c.trans += 2
+                compare_tangent(c, f"history/{s1}>{s2}/{second}", A2, fds[s2], labels, "tangent evaluated after another evaluation of the same shape vs FD of the stress update")
     if case["regime"] == "elastic" and grew:
         c.bad("regime", "elastic regime expected", grew, 0)
     if case["regime"] != "elastic" and grew < n:
